@@ -9,12 +9,27 @@ open GoPipeline
 
 /-! ### Bounded recursion: no hang, no stack overflow -/
 
-/-- With the bound `(|store|+2)·(maxContent+3)` the fuel never runs out: every call chain of `decode`
-    adds a fresh node to `seen`, every call chain of the merge walk adds a fresh node to `merged`, so
-    the nesting depth is at most the number of nodes (this is what bounds Go's recursion depth). -/
-theorem C07_decode_total (s : Store) (root : Nat) : decodeYAML s root ≠ .error .fuel := decode_total s root
+/-- With `bound s = (|store|+2)·((|store|+1)·maxContent+3)` the fuel never runs out: every call chain of
+    `decode` adds a fresh node to `seen`, every call chain of the merge walk adds a fresh node to `merged`, so
+    the nesting depth is at most the number of nodes (this is what bounds Go's recursion depth), and every
+    list walked at one level has at most `(|store|+1)·maxContent` elements.
 
-theorem C07_rangeMap_total (s : Store) (i : Nat) : rangeMap s (bound s) i ≠ .error .fuel := rangeMap_total s i
+    Two corrections against the first version of this statement (both with machine-checked
+    counterexamples in `Lemmas/Yaml.lean`):
+    * hypothesis `AliasFlat s` (the target of an alias node is not an alias node — an invariant of every
+      graph yaml.v3 builds, since an alias cannot carry an anchor).  Without it the statement is false:
+      `canonicalMapKey` follows alias → alias chains with no cycle detection, so on the hand-built graph
+      `aliasLoopStore` (`{*a: v}` with `*a` its own target) Go recurses forever and the model returns
+      `.error .fuel` for every fuel (`aliasLoop_counterexample`).
+    * `bound` in `Model/Yaml.lean` was `(|store|+2)·(maxContent+3)`; that is too small for the *model*
+      (not a Go defect: `decodePairs` spends one unit of fuel per yielded pair, and with merges the yielded
+      list is longer than any content list): `oldBound_counterexample` is a 53-node acyclic document on
+      which the old bound ran out of fuel.  Results other than `.error .fuel` do not depend on the bound. -/
+theorem C07_decode_total (s : Store) (root : Nat) (h : AliasFlat s) : decodeYAML s root ≠ .error .fuel :=
+  decode_total s root h
+
+theorem C07_rangeMap_total (s : Store) (i : Nat) (h : AliasFlat s) : rangeMap s (bound s) i ≠ .error .fuel :=
+  rangeMap_total s i h
 
 /-! ### Value cycles are errors; merge cycles are tolerated -/
 
@@ -42,7 +57,8 @@ theorem C07_merge_walk_no_recursion_error (s : Store) (f : Nat) (i : Nat) :
     exactly the content the YAML merge specification prescribes — keys, value nodes and order:
     explicit pairs where written, merged keys at the position of the merge key in first-contribution
     order, explicit keys beating merged ones, earlier sources beating later ones; the `merged`
-    de-duplication does not change the result. -/
+    de-duplication does not change the result.  (No `AliasFlat` needed: when the specification unfolds,
+    every alias chain the walk follows terminates, and the fuel `bound s` is shown to suffice.) -/
 theorem C07_merge_is_spec (s : Store) (f : Nat) (i : Nat) (ps : List (String × Nat))
     (h : specContent s f i = .ok ps) : rangeMap s (bound s) i = .ok ps := merge_is_spec s f i ps h
 
